@@ -20,7 +20,7 @@ RULE = ("plan = helper x kind (bool, int |x| ≤ 2**40, float, date, datetime, s
         "(optionally NA-stripped) list, documented defaults for short groups, missing propagation for numeric reductions, mode "
         "ties -> first occurrence; tolerance rel 1e-9 / abs 1e-12. Non-trivial: a non-default argument, or a single-element or "
         "all-missing group, or a mode tie, or a missing value present. Distinct = plan hash.")
-CASES = {"quick": 2500, "thorough": 12000}
+CASES = {"quick": 2500, "thorough": 24000}
 TOL = (1e-9, 1e-12)
 
 ALL = ["all", "any", "count", "count_unique", "first", "last", "nth", "min", "max", "mode", "mean", "median", "quantile",
